@@ -9,6 +9,6 @@ CONSTANTS
   MaxSnaps = 2
   MaxStmts = 3
   McAlphabet = "full"
-  WithFollower = TRUE
+  Reduced = FALSE
 VIEW McView
 INVARIANTS Converge LogDeterministic RewrittenIffMust
